@@ -78,7 +78,7 @@ theorem c14_edges_sublist (h : Heap) (rels : List Nat) (st : GState) :
     · refine ⟨kept, by rw [hk, he], hs.cons _⟩
     · refine ⟨(i1, i2, r) :: kept, by rw [hk, he]; simp, ?_⟩
       simp only [List.map_cons]
-      exact hs.cons₂ _
+      exact hs.cons_cons _
 
 /-- hence: never more edges than relations (nothing duplicated or invented) -/
 theorem c14_edge_count (h : Heap) (rels : List Nat) (st : GState) (hst : st.edges = []) :
